@@ -12,6 +12,7 @@ import (
 	"ariga.io/atlas/sql/schema"
 	"ariga.io/atlas/sql/sqlite"
 
+	"verif/clih"
 	"verif/engine/enum"
 	"verif/engine/report"
 	"verif/sqliteh"
@@ -45,7 +46,8 @@ func stateOf(names []string) squ.State {
 var indent = func(o *migrate.PlanOptions) { o.Indent = "  " }
 
 // populate inserts 3 rows per table that satisfy every constraint any state can carry.
-func populate(ctx context.Context, e *sqliteh.Engine, A *squ.DB, variant int) error {
+// populateStmts returns the statements that fill the skeleton tables of A.
+func populateStmts(A *squ.DB, variant int) []string {
 	stmts := []string{"PRAGMA foreign_keys = off",
 		"INSERT INTO p (id, k) VALUES (1, 1), (2, 2), (3, 3)",
 		"INSERT INTO u (id, v, t_id) VALUES (1, 'u1', 1), (2, NULL, 2), (3, 'u''3', NULL)",
@@ -92,8 +94,11 @@ func populate(ctx context.Context, e *sqliteh.Engine, A *squ.DB, variant int) er
 		}
 		stmts = append(stmts, fmt.Sprintf("INSERT INTO t (%s) VALUES (%s)", strings.Join(cols, ", "), strings.Join(vals, ", ")))
 	}
-	stmts = append(stmts, "PRAGMA foreign_keys = on")
-	if err := e.Exec(ctx, stmts...); err != nil {
+	return append(stmts, "PRAGMA foreign_keys = on")
+}
+
+func populate(ctx context.Context, e *sqliteh.Engine, A *squ.DB, variant int) error {
+	if err := e.Exec(ctx, populateStmts(A, variant)...); err != nil {
 		return err
 	}
 	// the data must be consistent under the constraints of A.
@@ -412,7 +417,7 @@ func pairs(tier string) []Case {
 
 func Run(r *report.Run) {
 	ctx := context.Background()
-	r.Rule = "pairs (A,B) of the SQLite schema universe (quick: all pairs of <=1-feature states plus each 2-feature state against its 1-feature sub-states and against the bare skeleton; thorough: all pairs of <=2-feature states), A created by our DDL and populated with 3 rows per table (2 data variants: third row holds NULL wherever A allows / no NULLs), then the `schema apply` flow towards B (given as HCL of our writer, or as atlas's own export of a database built with B's DDL), inside a transaction and (one data variant) outside one, as --tx-mode none does; the bystander table u holds child rows of t (ON DELETE CASCADE); rows read before/after by our own connection with quote(); non-trivial = pair with a non-empty plan that was applied; distinct = (A,B,variant)"
+	r.Rule = "pairs (A,B) of the SQLite schema universe (quick: all pairs of <=1-feature states plus each 2-feature state against its 1-feature sub-states and against the bare skeleton; thorough: all pairs of <=2-feature states), A created by our DDL and populated with 3 rows per table (2 data variants: third row holds NULL wherever A allows / no NULLs), then the `schema apply` flow towards B (given as HCL of our writer, or as atlas's own export of a database built with B's DDL), inside a transaction and (one data variant) outside one, as --tx-mode none does; the bystander table u holds child rows of t (ON DELETE CASCADE); rows read before/after by our own connection with quote(); CLI slice: the populated database file goes through the real `atlas schema apply --auto-approve` with the desired state as one HCL file and as a directory of HCL files (with a nested directory, which is not read) for every 1-feature state against the skeleton in both directions (thorough: also against its catalogue neighbour): the rows of the untouched tables p and u must be byte-identical and no row of t may be lost; non-trivial = pair with a non-empty plan that was applied; distinct = (A,B,variant)"
 	r.Assumptions = []string{
 		"a plan may fail only if the desired schema cannot hold the data (NOT NULL without default over a NULL or as a new column); such expected failures are counted separately",
 		"a value is compared when the column exists before and after with the same declared type and is not generated; NULL under a new NOT NULL DEFAULT x is expected to become x",
@@ -454,9 +459,24 @@ func Run(r *report.Run) {
 	r.Set("applied_via_rebuild", rebuild)
 	r.Set("applied_via_alter", alter)
 	r.Set("cell_values_compared", compared)
+	runCLI(r)
 }
 
 func Replay(r *report.Run, raw json.RawMessage) {
+	var cv struct {
+		Case struct {
+			C *CLICase `json:"cli"`
+		}
+	}
+	if json.Unmarshal(raw, &cv) == nil && cv.Case.C != nil {
+		defer clih.Cleanup()
+		r.Case("a", true)
+		r.Case("b", true)
+		if p, _ := evalCLI(*cv.Case.C); len(p) > 0 {
+			r.Violate("", strings.Join(p, " | "), map[string]any{"cli": cv.Case.C})
+		}
+		return
+	}
 	var v struct{ Case Case }
 	if err := json.Unmarshal(raw, &v); err != nil {
 		r.Violate("", "bad replay file: "+err.Error(), nil)
